@@ -73,6 +73,20 @@ func (c *Crew) DoOp(ctx context.Context, op *CrewOp) error {
 // NewCaptainSpec creates a machine Spec for a "captain" who can
 // execute CrewOps.
 func (c *Crew) NewCaptainSpec() *core.Spec {
+
+	// done wraps the captain's action so that the message it was
+	// given ("?op") never stays bound: with "?op" bound, the next
+	// message would have to equal the previous one to be heard.
+	done := func(f func(context.Context, match.Bindings, core.StepProps) (*core.Execution, error)) func(context.Context, match.Bindings, core.StepProps) (*core.Execution, error) {
+		return func(ctx context.Context, bs match.Bindings, props core.StepProps) (*core.Execution, error) {
+			exe, err := f(ctx, bs, props)
+			if exe != nil && exe.Bs != nil {
+				exe.Bs = exe.Bs.Copy().Remove("?op")
+			}
+			return exe, err
+		}
+	}
+
 	spec := &core.Spec{
 		Nodes: map[string]*core.Node{
 			"start": {
@@ -88,7 +102,7 @@ func (c *Crew) NewCaptainSpec() *core.Spec {
 			},
 			"do": {
 				Action: &core.FuncAction{
-					F: func(ctx context.Context, bs match.Bindings, props core.StepProps) (*core.Execution, error) {
+					F: done(func(ctx context.Context, bs match.Bindings, props core.StepProps) (*core.Execution, error) {
 						x, have := bs["?op"]
 						if !have {
 							return core.NewExecution(bs.Extend("error", "no op")), nil
@@ -107,7 +121,7 @@ func (c *Crew) NewCaptainSpec() *core.Spec {
 						}
 
 						return core.NewExecution(match.NewBindings()), nil
-					},
+					}),
 				},
 				Branches: &core.Branches{
 					Type: "bindings",
